@@ -225,7 +225,16 @@ static inline mzd_t *vop_raw(int nr, int nc, int idx, int fill) {
   if (!((VIEWMASK >> idx) & 1)) { mzd_t *M = mzd_init(nr, nc); if (fill) vfill(M); return M; }
   vview_t *v = &vviews[vnviews++];
   v->P = mzd_init(nr + VROFF + 1, 64 * VOFF + nc + VEXTRA);
+#ifdef VPARENT_CONC
+  /* concrete (pseudo-random, non-zero) surroundings: used where symbolic bits sharing a word with concrete
+   * pivot columns would make the control flow symbolic (CBMC has no bit-level constant propagation); the
+   * frame assertion still sees every clobbered bit, the claim is for this concrete parent content only */
+  for (rci_t pi = 0; pi < v->P->nrows; ++pi)
+    for (wi_t pj = 0; pj < v->P->width; ++pj)
+      mzd_row(v->P, pi)[pj] = (vlcg_next() | 0x8000000000000001ull) & (pj == v->P->width - 1 ? v->P->high_bitmask : ~(word)0);
+#else
   vfill(v->P);
+#endif
   v->W = mzd_init_window(v->P, VROFF, 64 * VOFF, VROFF + nr, 64 * VOFF + nc);
   v->nr = nr; v->nc = nc;
   for (rci_t i = 0; i < v->P->nrows; ++i)
